@@ -48,6 +48,7 @@ package endorse
 //@   modifies copsCalls, lastRead, lastReadErr
 //@   ghostset checkedMissing = store(checkedMissing, fullpath, err == nil && !result)
 //@   ensures[C13] cops != nil && err == nil && !result ==> notFound(lastReadErr)
+//@   ensures[C14] cops != nil && err == nil && result ==> lastReadErr == nil
 //@   sweep[C15] nilinvoke nilcall
 //@   ensures[C15] cops == nil ==> copsCalls == old(copsCalls) && err == nil && !result
 
@@ -62,6 +63,8 @@ package endorse
 //@   modifies copsCalls, lastRead, lastReadErr, checkedMissing
 //@   ensures[C13] err == nil && !allowOverwrite(ctx) ==> checkedMissing[releasePath(ctx, result0)]
 //@   ensures[C13] err == nil && cops != nil && !allowOverwrite(ctx) ==> notFound(lastReadErr)
+// (C14: an attempt goes on only after a conclusive existence probe - a read failure other than not-found ends it)
+//@   ensures[C14] err == nil && cops != nil ==> lastReadErr == nil || notFound(lastReadErr)
 //@   requires ecOf(ctx) != nil
 //@   requires ecOf(ctx).VCS != nil
 //@   sweep[C15] nilinvoke nilcall
@@ -138,7 +141,7 @@ package endorse
 //@   ensures[C15] vcGetOps == old(vcGetOps) && copsCalls == old(copsCalls)
 
 //@ func VirtualFirmware
-//@   modifies copsCalls, lastRead, lastReadErr, copsWrites, checkedMissing, marshalOf, parsedWasLastRead, pbsrc, pbok, vcGetOps, vcOpened, vcResults, copsDestroyed, copsCommitTries, copsCommitsOK, lastRetriable, signerCalls, caCalls, sigKey, sigDigest, lastSig, caPrimary, certKeyArg, lastCert, bundleKeyArg, lastBundle, snpImage, tdxImage, commitSubmits, lastCertOK, lastBundleOK
+//@   modifies copsCalls, lastRead, lastReadErr, copsWrites, checkedMissing, marshalOf, parsedWasLastRead, pbsrc, pbok, vcGetOps, vcOpened, vcResults, copsDestroyed, copsCommitTries, copsCommitsOK, lastRetriable, signerCalls, caCalls, sigKey, sigDigest, lastSig, caPrimary, certKeyArg, lastCert, bundleKeyArg, lastBundle, snpImage, tdxImage, commitSubmits, lastCertOK, lastBundleOK, stdoutWrites
 //@   requires ecOf(ctx) == nil || (ecOf(ctx).CommitRetries < 9223372036854775807 && forall(i, 0 <= i && i < len(ecOf(ctx).VCSs) ==> ecOf(ctx).VCSs[i] != nil))
 //@   sweep[C15] nilinvoke nilcall
 //@   ensures[C15] ecOf(ctx) != nil && old(ecOf(ctx).MeasurementOnly) ==> signerCalls == old(signerCalls) && caCalls == old(caCalls) && vcGetOps == old(vcGetOps) && copsCalls == old(copsCalls)
@@ -200,3 +203,16 @@ package endorse
 //@ func uriEvent
 //@   modifies *
 //@   atcall googleSp800155Event requires[C16] p1 == 1 && p2 != nil
+
+// C14 (at most retries-plus-one attempts, for the budget the caller chose): attaching an endorse context to a Go context
+// changes nothing in it - in particular the caller's retry budget, zero included, is left as given.
+//@ func NewContext
+//@   assigns[C14] nothing
+
+// C15 (a measurement-only run prints the measurements a real run would sign): when one launch VMSA count is requested,
+// the measurement computed for exactly that count is printed - whatever the count is.
+//@ func outputSevMeasurement
+//@   requires ec != nil && ec.SevSnp != nil && snp != nil
+//@   assigns nothing
+//@   modifies stdoutWrites
+//@   ensures[C15] ec.SevSnp.LaunchVmsas != 0 ==> stdoutWrites == old(stdoutWrites) + 1
